@@ -116,7 +116,7 @@ func OpenDir(baseDir string) (*Bundle, error) {
 			ret.registryPackageVersionDeprecations[pkgAddr] = deprecations
 		}
 		for versionStr, mv := range rpm.Versions {
-			version, err := versions.ParseVersion(versionStr)
+			version, err := parseVersion(versionStr)
 			if err != nil {
 				return nil, fmt.Errorf("invalid registry package version %q: %w", versionStr, err)
 			}
@@ -408,4 +408,15 @@ func ExtractArchive(r io.Reader, targetDir string) (*Bundle, error) {
 		return nil, err
 	}
 	return OpenDir(targetDir)
+}
+
+// parseVersion is versions.ParseVersion made total: the underlying parser
+// panics on a numeric segment that does not fit in 64 bits.
+func parseVersion(s string) (v versions.Version, err error) {
+	defer func() {
+		if r := recover(); r != nil {
+			err = fmt.Errorf("invalid version %q: %v", s, r)
+		}
+	}()
+	return versions.ParseVersion(s)
 }
